@@ -478,6 +478,14 @@ class FnTr(object):
                 d = self.expr(e.args[1])
                 o = self.gen_first(e.args[0].elt, e.args[0].generators)
                 return self.bind("Py.optD %s %s" % (o, d), pure=True)
+            if name in getattr(self.u, "constructors", {}):
+                lean_init, nparams, defaults = self.u.constructors[name]
+                args = [self.expr(a) for a in e.args]
+                if len(args) + len(defaults) < nparams or len(args) > nparams:
+                    raise Unsupported("constructor arguments of %s" % name)
+                args += [lean_const(d) for d in defaults[len(defaults) - (nparams - len(args)):]] if nparams > len(args) else []
+                r = self.bind("%s (Py.newObj %s) %s" % (lean_init, lean_str(name), " ".join(args)))
+                return "%s.2" % r
             if name in getattr(self.u, "external", {}) and name not in self.u.classes.get("", {}):
                 args = [self.expr(a) for a in e.args]
                 return self.bind("%s %s" % (self.u.external[name], " ".join(args)))
@@ -505,6 +513,9 @@ class FnTr(object):
                 return self.bind("Py.modinv %s %s" % (self.expr(e.args[0]), self.expr(e.args[1])))
             if f.attr == "to_bytes" and len(e.args) == 2:
                 return self.bind("Py.intToBytes %s %s %s" % (self.expr(f.value), self.expr(e.args[0]), self.expr(e.args[1])))
+            if isinstance(f.value, ast.Name) and f.value.id == "self" and f.attr in getattr(self.u, "self_methods", {}):
+                args = [self.expr(a) for a in e.args]
+                return self.bind("%s v_self %s" % (self.u.self_methods[f.attr], " ".join(args)))
             if isinstance(f.value, ast.Name) and f.value.id == "self":
                 callee = self.u.classes.get(self.f["cls"], {}).get(f.attr)
                 if callee is None:
@@ -558,6 +569,10 @@ class FnTr(object):
             for i, x in enumerate(target.elts):
                 self.assign_name(x.id, "Py.nth %s %d" % (u, i))
                 self.aliases.discard(x.id)
+        elif isinstance(target, ast.Tuple) and all(isinstance(x, (ast.Name, ast.Attribute)) for x in target.elts):
+            u = self.bind("Py.unpackN %s %d" % (atom, len(target.elts)))
+            for i, x in enumerate(target.elts):
+                self.store(x, "(Py.nth %s %d)" % (u, i))
         elif isinstance(target, (ast.Attribute, ast.Subscript)):
             root, accs = self.path_of(target)
             if root in self.aliases:
@@ -865,11 +880,18 @@ class _LoopRewrite(ast.NodeTransformer):
     `self._transport.bulk_read/bulk_write(...)` -> parameter eff0, eff1, ... (their argument tuples are kept), `time.time()` -> parameter `now`,
     `await x` -> x, logging statements dropped, `break` / `return v` / falling off the end -> `return ('break'|'return'|'continue', ...)`."""
 
-    def __init__(self, carried):
+    def __init__(self, carried, extra=()):
         self.effects = []      # (param name, method name, [arg ASTs])
         self.uses_now = False
         self.carried = carried
+        self.extra = set(extra)   # further effects: self.<m>(...) / self.<obj>.<m>(...) by (dotted) name
         self.depth = 0
+
+    def visit_Yield(self, node):
+        self.generic_visit(node)
+        name = "eff%d" % len(self.effects)
+        self.effects.append((name, "yield", [node.value] if node.value is not None else []))
+        return ast.Name(id=name, ctx=ast.Load())
 
     def visit_Await(self, node):
         return self.visit(node.value)
@@ -881,6 +903,12 @@ class _LoopRewrite(ast.NodeTransformer):
                 and f.value.attr == "_transport" and f.attr in ("bulk_read", "bulk_write"):
             name = "eff%d" % len(self.effects)
             self.effects.append((name, f.attr, list(node.args)))
+            return ast.Name(id=name, ctx=ast.Load())
+        en = _effect_name(node, self.extra) if self.extra else None
+        if en is not None:
+            name = "eff%d" % len(self.effects)
+            kws = [ast.Tuple(elts=[ast.Constant(value=k.arg), k.value], ctx=ast.Load()) for k in node.keywords if k.arg]
+            self.effects.append((name, en, list(node.args) + kws))
             return ast.Name(id=name, ctx=ast.Load())
         if isinstance(f, ast.Attribute) and isinstance(f.value, ast.Name) and f.value.id == "time" and f.attr == "time" and not node.args:
             self.uses_now = True
@@ -917,7 +945,7 @@ class _LoopRewrite(ast.NodeTransformer):
         raise Unsupported("nested loop")
 
 
-def loop_iteration(fn_node):
+def loop_iteration(fn_node, extra=()):
     """(cond function node, iteration function node, [effect-args function nodes], info) for a method whose body contains exactly one `while` loop at top level."""
     body = strip_docstring(list(fn_node.body))
     loops = [st for st in body if isinstance(st, ast.While)]
@@ -932,7 +960,7 @@ def loop_iteration(fn_node):
                     if isinstance(x, ast.Name) and x.id not in assigned:
                         assigned.append(x.id)
     import copy as _copy
-    rw = _LoopRewrite(sorted(assigned))
+    rw = _LoopRewrite(sorted(assigned), extra)
     new_body = [rw.visit(_copy.deepcopy(st)) for st in loop.body]
     new_body = [st for st in new_body if st is not None]
     new_body.append(rw._tagged("continue"))
@@ -942,7 +970,8 @@ def loop_iteration(fn_node):
         if isinstance(n, ast.Name) and isinstance(n.ctx, ast.Load) and n.id not in reads:
             reads.append(n.id)
     eff_names = [e[0] for e in rw.effects]
-    state = sorted(v for v in reads if v not in eff_names and v != "now" and v not in ("True", "False", "None") and not v.isupper() and v not in ("len", "bytes", "bytearray", "min", "exceptions", "constants"))
+    state = sorted(v for v in reads if v not in eff_names and v != "now" and v not in ("True", "False", "None") and not v.isupper()
+                   and v not in ("len", "bytes", "bytearray", "min", "exceptions", "constants", "AdbMessage", "_AdbTransactionInfo", "_FileSyncTransactionInfo"))
     params = state + eff_names + (["now"] if rw.uses_now else [])
 
     def mk(name, ps, b):
@@ -950,16 +979,31 @@ def loop_iteration(fn_node):
     cond = mk(fn_node.name + "__cond", state, [ast.Return(value=_copy.deepcopy(loop.test))])
     it = mk(fn_node.name + "__iter", params, new_body)
     effs = []
-    for name, meth, args in rw.effects:
-        effs.append(mk("%s__%s_args" % (fn_node.name, name), state, [ast.Return(value=ast.Tuple(elts=[ast.Constant(value=meth)] + [_copy.deepcopy(a) for a in args], ctx=ast.Load()))]))
+    if len(rw.effects) <= 1 and not extra:
+        for name, meth, args in rw.effects:
+            effs.append(mk("%s__%s_args" % (fn_node.name, name), state, [ast.Return(value=ast.Tuple(elts=[ast.Constant(value=meth)] + [_copy.deepcopy(a) for a in args], ctx=ast.Load()))]))
+    else:
+        for k in range(len(rw.effects)):
+            effs.append(mk("%s__eff%d_args" % (fn_node.name, k), state + eff_names[:k] + (["now"] if rw.uses_now else []), _cut_at(_copy.deepcopy(new_body), k, rw.effects)))
     return cond, it, effs, dict(state=state, carried=sorted(assigned), effects=[(n, m) for n, m, _ in rw.effects])
 
 
-def _is_self_call(node, names):
+def _effect_name(node, names):
+    """'_write_all' for self._write_all(...), '_io_manager.send' for self._io_manager.send(...) when that dotted name is in `names`, else None"""
     if isinstance(node, ast.Await):
         node = node.value
-    return (isinstance(node, ast.Call) and isinstance(node.func, ast.Attribute) and isinstance(node.func.value, ast.Name) and node.func.value.id == "self"
-            and node.func.attr in names)
+    if not (isinstance(node, ast.Call) and isinstance(node.func, ast.Attribute)):
+        return None
+    f = node.func
+    if isinstance(f.value, ast.Name) and f.value.id == "self" and f.attr in names:
+        return f.attr
+    if isinstance(f.value, ast.Attribute) and isinstance(f.value.value, ast.Name) and f.value.value.id == "self" and (f.value.attr + "." + f.attr) in names:
+        return f.value.attr + "." + f.attr
+    return None
+
+
+def _is_self_call(node, names):
+    return _effect_name(node, names) is not None
 
 
 class _EffRewrite(ast.NodeTransformer):
@@ -974,11 +1018,28 @@ class _EffRewrite(ast.NodeTransformer):
 
     def visit_Call(self, node):
         self.generic_visit(node)
-        if _is_self_call(node, self.names):
+        en = _effect_name(node, self.names)
+        if en is not None:
             name = "eff%d" % len(self.effects)
-            self.effects.append((name, node.func.attr, list(node.args)))
+            kws = [ast.Tuple(elts=[ast.Constant(value=k.arg), k.value], ctx=ast.Load()) for k in node.keywords if k.arg]
+            self.effects.append((name, en, list(node.args) + kws))
             return ast.Name(id=name, ctx=ast.Load())
         return node
+
+    def visit_Yield(self, node):
+        self.generic_visit(node)
+        name = "eff%d" % len(self.effects)
+        self.effects.append((name, "yield", [node.value] if node.value is not None else []))
+        return ast.Name(id=name, ctx=ast.Load())
+
+    def visit_With(self, node):
+        # `with self.<lock>:` -- the lock discipline is covered by the generated lock facts; here only the body matters
+        self.generic_visit(node)
+        if all(isinstance(i.context_expr, ast.Attribute) and i.context_expr.attr.endswith("_lock") and i.optional_vars is None for i in node.items):
+            return node.body
+        return node
+
+    visit_AsyncWith = visit_With
 
     def visit_Expr(self, node):
         v = node.value.value if isinstance(node.value, ast.Await) else node.value
@@ -1020,7 +1081,10 @@ def effect_function(fn_node, effect_names, wrap_result=True):
     import copy as _copy
     body = strip_docstring(list(_copy.deepcopy(fn_node.body)))
     rw = _EffRewrite(effect_names)
-    new_body = [rw.visit(st) for st in body]
+    new_body = []
+    for st in body:
+        r = rw.visit(st)
+        new_body += r if isinstance(r, list) else [r]
     params = [a.arg for a in fn_node.args.args if a.arg != "self"]
     uses_self = any(isinstance(x, ast.Name) and x.id == "self" for st in new_body for x in ast.walk(st))
     if uses_self:
@@ -1127,6 +1191,30 @@ def build_units(repo):
                         node = ast.FunctionDef(name=tag + "_iter", args=ast.arguments(posonlyargs=[], args=[], kwonlyargs=[], kw_defaults=[], defaults=[]),
                                                body=[ast.Global(names=["loop_not_extractable: %s" % str(exc)[:80].replace(" ", "_")])], decorator_list=[])
                         u.add_function("", node, lean=tag + "_iter", params=[])
+        u.constructors = {"AdbMessage": ("AdbMessage_init", 4, [b""]), "_AdbTransactionInfo": ("AdbTransactionInfo_init", 5, [])}
+        u.self_methods = {"_get_transport_timeout_s": "%s_get_transport_timeout_s" % cls}
+        dc = find_class(tree, cls)
+        STREAM_EFFECTS = {"_io_manager.send", "_io_manager.read", "_read_until", "_okay", "_clse"}
+        if dc is not None:
+            for m in methods_of(dc):
+                if m.name == "_get_transport_timeout_s":
+                    m.body = strip_docstring(m.body)
+                    u.add_function("", m, lean="%s_get_transport_timeout_s" % cls, params=[a.arg for a in m.args.args])
+            for m in methods_of(dc):
+                tag = "%s_%s" % (cls, m.name.strip("_"))
+                try:
+                    if m.name in ("_okay", "_clse", "_read_until", "_open"):
+                        main, argfns, info = effect_function(m, STREAM_EFFECTS)
+                        for node, suffix in [(main, "fn")] + [(a, a.name.split("__")[-1]) for a in argfns]:
+                            u.add_function("", node, lean="%s_%s" % (tag, suffix), params=[a.arg for a in node.args.args])
+                    elif m.name == "_read_until_close":
+                        cond, it, effs, info = loop_iteration(m, STREAM_EFFECTS)
+                        for node, suffix in [(cond, "cond"), (it, "iter")] + [(e, e.name.split("__")[-1]) for e in effs]:
+                            u.add_function("", node, lean="%s_%s" % (tag, suffix), params=[a.arg for a in node.args.args])
+                except Unsupported as exc:
+                    node = ast.FunctionDef(name=tag + "_fn", args=ast.arguments(posonlyargs=[], args=[], kwonlyargs=[], kw_defaults=[], defaults=[]),
+                                           body=[ast.Global(names=["not_extractable: %s" % str(exc)[:80].replace(" ", "_")])], decorator_list=[])
+                    u.add_function("", node, lean=tag + "_fn", params=[])
         c = find_class(tree, cls)
         if c is not None:
             for m in methods_of(c):
